@@ -20,6 +20,8 @@ class SimFuture:
         self._exc = None
         self._task = None
         self._cancelled = False
+        self._due = None  # a function submitted to the pool: when it will have run, and the thunk that runs it
+        self._run = None
 
     def _finish(self, result=None, exc=None):
         self._done = True
@@ -83,6 +85,40 @@ class SimFuture:
                 raise RuntimeError("future did not complete")
 
 
+def sim_wait(fs, timeout=None, return_when="ALL_COMPLETED"):
+    """concurrent.futures.wait for the calling (actor) thread: virtual time passes while it blocks, and only the executors of
+    the futures' own processes run meanwhile"""
+    import concurrent.futures as _cf
+
+    fs = list(fs)
+    if fs:
+        system = fs[0]._system
+        deadline = None if timeout is None else system.clock.now + timeout
+        for f in fs:
+            if f._done:
+                continue
+            if f._run is not None:
+                if deadline is None or f._due <= deadline:
+                    system.clock.advance_to(max(system.clock.now, f._due))
+                    f._run()
+            else:
+                loop = f._cell.loop
+                n = 0
+                while not f._done and loop is not None and not loop.in_callback:
+                    t = loop.next_time()
+                    if t is None or (deadline is not None and t > deadline):
+                        break
+                    system.clock.advance_to(t)
+                    loop.run_one()
+                    n += 1
+                    if n > 200000:
+                        break
+        if deadline is not None and any(not f._done for f in fs):
+            system.clock.advance_to(max(system.clock.now, deadline))
+        system.probe("actor_thread_waited_for_future")
+    return _cf._base.DoneAndNotDoneFutures({f for f in fs if f._done}, {f for f in fs if not f._done})
+
+
 class SimPool:
     """ThreadPoolExecutor(max_workers=1) of a simulated process"""
 
@@ -107,10 +143,11 @@ class SimPool:
             fut._from_task(task)
             s.log("executor-start", cell.name)
         else:
-            delay = s.net.uniform(0.001, 0.8)
+            # most preparation steps take a while, some are over at once (everything is in place already)
+            delay = s.net.uniform(0.0005, 0.04) if s.net.coin(0.3) else s.net.uniform(0.04, 0.8)
 
             def run():
-                if cell.dead:
+                if cell.dead or fut._done:
                     return
                 old = s.clock.proc
                 s.clock.proc = cell.proc
@@ -122,6 +159,7 @@ class SimPool:
                     s.clock.proc = old
                 s.log("pool-task-done", cell.name, getattr(fn, "__name__", "fn"))
 
+            fut._due, fut._run = s.clock.now + delay, run
             s.call_at(s.clock.now + delay, run)
         return fut
 
@@ -190,7 +228,9 @@ def namespaces(system):
     SimPool.system = system
     SimEvent.system = system
     SimQueue.system = system
-    futures = types.SimpleNamespace(ThreadPoolExecutor=SimPool, Future=SimFuture)
+    import concurrent.futures as _cf
+
+    futures = types.SimpleNamespace(ThreadPoolExecutor=SimPool, Future=SimFuture, wait=sim_wait, FIRST_COMPLETED=_cf.FIRST_COMPLETED, FIRST_EXCEPTION=_cf.FIRST_EXCEPTION, ALL_COMPLETED=_cf.ALL_COMPLETED, TimeoutError=_cf.TimeoutError, CancelledError=_cf.CancelledError)
     concurrent = types.SimpleNamespace(futures=futures)
     threading = types.SimpleNamespace(Event=SimEvent, get_ident=_real_threading.get_ident, current_thread=_real_threading.current_thread, Lock=_real_threading.Lock)
     queue = types.SimpleNamespace(Queue=SimQueue, Empty=_real_queue.Empty, Full=_real_queue.Full)
